@@ -127,6 +127,20 @@ template<class C> static void showList(const char* tag, int v, C& c)
     for(size_t k = 0; k < n; ++k) --b;
     for(size_t k = 0; k < n; ++k, ++b, ++f)
       if(&*b != &*f) printf(" back-walk-differs");
+    // the non-mutating forms `Iterator operator++() const` / `operator--() const` and `operator->`
+    {
+      typename C::Iterator x = c.begin();
+      for(size_t k = 0; k < n; ++k)
+      {
+        const typename C::Iterator& cx = x;
+        typename C::Iterator nx = ++cx;
+        const typename C::Iterator& cn = nx;
+        typename C::Iterator back = --cn;
+        if(back != x || cx.operator->() != &*x) printf(" const-iterator-differs");
+        x = nx;
+      }
+      if(x != c.end()) printf(" const-iterator-differs");
+    }
   }
 }
 
@@ -143,6 +157,22 @@ static void showArray(int v, A& a)
     if(i != n) printf(" iteration-differs");
     for(i = 0; i < n; ++i)
       if(&a[i] != &((const A&)a)[i] || &a[i] != (int*)a + i) printf(" index-differs");
+    {
+      A::Iterator x = a.begin();
+      for(i = 0; i < n; ++i)
+      {
+        const A::Iterator& cx = x;
+        A::Iterator nx = ++cx;
+        const A::Iterator& cn = nx;
+        A::Iterator back = --cn;
+        if(back != x || cx.operator->() != &a[i]) printf(" const-iterator-differs");
+        x = nx;
+      }
+      if(x != a.end()) printf(" const-iterator-differs");
+      A::Iterator y = a.end();
+      for(i = 0; i < n; ++i) --y;
+      if(y != a.begin()) printf(" back-walk-differs");
+    }
   }
 }
 
